@@ -9,7 +9,7 @@ Definition agree (co : stat_cfg * list Z) : bool := zlist_eqb (cfg_obs (fst co))
 Definition spec_c17 (co : stat_cfg * list Z) : bool :=
   let c := fst co in
   match snd co with
-  | [0%Z] => negb (cfg_check c)
+  | 0%Z :: rest => negb (cfg_check c) && zlist_eqb rest (cfg_values default_stat_cfg)   (* a rejected configuration changes nothing *)
   | 1%Z :: rest =>
       cfg_check c &&
       zlist_eqb rest (cfg_values c ++ cfg_values c ++ cfg_values c ++
